@@ -1,12 +1,12 @@
 """Which configurations each property's check builds and runs, and the evidence metadata."""
 
 CONFIGS = {
-    "simd":     {"toolchain": "stable",  "rustflags": ""},
+    "simd":     {"toolchain": "stable",  "rustflags": "--cfg mc_avx2"},
     "serial64": {"toolchain": "stable",  "rustflags": '--cfg curve25519_dalek_backend="serial" --cfg curve25519_dalek_bits="64"'},
     "serial32": {"toolchain": "stable",  "rustflags": '--cfg curve25519_dalek_backend="serial" --cfg curve25519_dalek_bits="32"'},
     "fiat64":   {"toolchain": "stable",  "rustflags": '--cfg curve25519_dalek_backend="fiat" --cfg curve25519_dalek_bits="64"'},
     "fiat32":   {"toolchain": "stable",  "rustflags": '--cfg curve25519_dalek_backend="fiat" --cfg curve25519_dalek_bits="32"'},
-    "avx512":   {"toolchain": "nightly", "rustflags": '--cfg curve25519_dalek_backend="unstable_avx512"'},
+    "avx512":   {"toolchain": "nightly", "rustflags": '--cfg curve25519_dalek_backend="unstable_avx512" --cfg mc_avx2 --cfg mc_ifma'},
 }
 
 VARIANTS = {
@@ -141,4 +141,29 @@ PROPS["C09"] = _std(
     "DESIGN.md section 4, C09",
     "exhaustive adversarial-alphabet enumeration against the documented acceptance rule",
     lambda tier: [R("simd"), R("simd", "rel-legacy")] if tier == "quick" else [R("simd"), R("simd", "rel-legacy"), R("simd", dispatch="serial"), R("serial32"), R("serial32", "rel-legacy"), R("serial64"), R("fiat64"), R("fiat32"), R("avx512")],
+)
+
+
+PROPS["C12"] = _std(
+    "exploration",
+    "complete enumeration of the finite set of precomputed constants: all 32x8 entries of the fixed-base table (exported limbs vs j*256^i*B computed by repeated affine addition, and each entry selected through mul_base with positive and negated digits), all 64 affine odd multiples, all 64 AVX2 and 64 IFMA cached odd multiples (lane ratios vs (2i+1)B, limb bounds), "
+    "each odd-multiple table also selected through vartime double-base for every odd k<128 under each dispatch, every crate-private field/scalar constant (value from raw limbs and canonical bytes vs defining equation), vector constants 2p/16p and identities, basepoints, group order, EIGHT_TORSION = E[8] in documented order, Ristretto table = Edwards table, length constants. distinct_nontrivial = obligations checked.",
+    "The space is finite and enumerated completely for each built configuration.",
+    "DESIGN.md section 4, C12",
+    "complete enumeration of all table entries and constants against their definitions in the reference model",
+    lambda tier: [R("simd"), R("simd", dispatch="serial"), R("serial32")] if tier == "quick" else
+                 [R("simd"), R("simd", dispatch="serial"), R("simd", "rel-notables"), R("serial32"), R("serial64"), R("fiat64"), R("fiat32"),
+                  R("avx512"), R("avx512", dispatch="avx2"), R("avx512", dispatch="serial")],
+    exhaustive=True,
+)
+
+PROPS["C16"] = _std(
+    "exploration",
+    "for each serialisable type: every value/encoding of its alphabet (corner scalars around l, ~500-2000 structured Edwards and Ristretto encodings incl. every rejection class, corner byte strings) serialised with bincode and JSON and compared with the reference wire form written from the serde data model; "
+    "deserialisation of the reference forms through bincode, JSON, serde's SeqDeserializer and a scripted format-free deserializer must accept exactly when the native decoder (model) accepts; "
+    "sequence scripts of every length 0..=34 and ill-typed elements at first/middle/last/trailing positions, JSON shape mutations, truncated and mis-sized byte strings (every length 0..=70 for the byte-string types). distinct_nontrivial = cases driven.",
+    "Exhaustive over structured value alphabets and over a complete small alphabet of sequence shapes for every Deserialize impl.",
+    "DESIGN.md section 4, C16",
+    "exhaustive alphabet and sequence-shape enumeration against reference wire forms and the native decoders",
+    lambda tier: [R("simd")] if tier == "quick" else [R("simd"), R("serial32"), R("fiat64"), R("avx512")],
 )
